@@ -390,6 +390,7 @@ class PathFacts:
         self.guards = []     # all guards on path (substituted, polarity, raw)
         self.env = {}
         self.order = []      # interleaved ('store'|'call', obj)
+        self.zero_loops = 0  # loops taken zero times on this path
 
 
 def _calls_in_order(node):
@@ -484,11 +485,19 @@ def walk_path(path, params=(), init_env=None, kill_attr_on_call=None):
             bind(s.target, v, s.value, s, aug=s.op)
         elif ev.kind == "expr":
             record_calls(s.value, s)
+            # L.append(v) on a local list literal: model as L = L + [v]
+            c = s.value
+            if isinstance(c, ast.Call) and isinstance(c.func, ast.Attribute) and c.func.attr == "append" and isinstance(c.func.value, ast.Name) \
+                    and len(c.args) == 1 and isinstance(env.get(c.func.value.id), ast.List):
+                old = env[c.func.value.id]
+                env[c.func.value.id] = ast.List(elts=list(old.elts) + [subst(c.args[0], env)], ctx=ast.Load())
         elif ev.kind == "guard":
             record_calls(ev.a, s)
             g = (subst(ev.a, env), ev.b, ev.a, s)
             guards.append(g)
             pf.guards.append(g)
+            if isinstance(s, ast.While) and not ev.b:
+                pf.zero_loops += 1
         elif ev.kind == "endif":
             # leaving the compound statement: its guard no longer encloses what follows; when some
             # branch of it can escape (return/raise/break) it is remembered as a *prior* guard
@@ -504,6 +513,7 @@ def walk_path(path, params=(), init_env=None, kill_attr_on_call=None):
             pf.guards.append(g)
         elif ev.kind == "loop0":
             record_calls(s.iter, s)
+            pf.zero_loops += 1
         elif ev.kind == "loopexit":
             # after a while-body: values assigned in the body are loop-carried; forget them
             for r in _assigned_in(s.body):
